@@ -5,12 +5,19 @@ design half : TLC on spec/MCApiAlgebra.tla -- (a) every (function, arguments)
               of the bounded algebra input space: the LAW (what the name
               means, on sets) holds on the CODE model with the repaired flag,
               (b) the machine part: lifecycle x getters x MutateReturned x
-              wait/ask helper scenarios x argument classes, (c) PREDICT: what
-              breaks with the code model as found.
+              wait/ask helper scenarios x argument classes, (c) the async
+              helpers step by step: every entry point x every scenario of how
+              and when the awaited state is activated (inside the helper's own
+              transition, inside its queue drain, later, already queued,
+              never) x every interleaving with the environment, (d) PREDICT:
+              what breaks with the code model as found, and in which scenarios
+              the law rejects a helper that subscribes after its mutation.
 binding half: harness/apidrv calls the REAL functions
               alg    the same input space, one ndjson line per call
               copy   mutate what the copying getters returned, re-read
-              help   wait/ask helpers in known machine outcomes
+              help   wait/ask helpers in known machine outcomes; the async
+                     helpers in every scenario of the step model, the ticks of
+                     the awaited state read from the real machine
               total  every exported function/method (generated table +
                      reflection) x lifecycle phases x argument classes in
                      crash-isolated worker processes
@@ -85,10 +92,11 @@ def regen_table():
 
 def run_mc(tier, rep):
     b = BOUNDS[tier]
-    base = dict(b, Shared="<-NoShared")
+    base = dict(b, Shared="<-NoShared", AsyncOrder="bind-mutate")
     jobs = [
         ("alg", dict(base, Fix=True, Part="alg"), 2400 if tier == "thorough" else 600),
         ("machine", dict(base, Fix=True, Part="machine"), 600),
+        ("async", dict(base, Fix=True, Part="async"), 600),
         ("predict", dict(base, Fix=False, Part="predict", MaxLenVar=min(b["MaxLenVar"], 2),
                          MaxQueue=min(b["MaxQueue"], 2)), 900),
     ]
@@ -98,7 +106,7 @@ def run_mc(tier, rep):
         return label, tlcrun.run_tlc("MCApiAlgebra", dict(spec="MCSpec", consts=consts, view="MCView",
                                                           invariants=INVS),
                                      workers=8 if label == "alg" else 2, timeout=to)
-    with jvm_heap("-Xmx4g"), cf.ThreadPoolExecutor(max_workers=3) as ex:
+    with jvm_heap("-Xmx4g"), cf.ThreadPoolExecutor(max_workers=4) as ex:
         results = list(ex.map(one, jobs))
     runs, states, trans = [], 0, 0
     predicted = None
@@ -120,6 +128,26 @@ def run_mc(tier, rep):
             predicted = sorted(set(x for x in
                                    o[i:j].replace("\n", " ").replace("{", ",").replace("}", ",").split('"')
                                    if x.strip(" ,<") and x != "PREDICT"))
+            k = o.find("PREDICTASYNC")
+            if k < 0:
+                raise Inconclusive("no PREDICTASYNC output:\n" + o[-2000:])
+            import re
+            tail = o[k:o.find("\n", k)]
+            nums = re.findall(r"<<(\d+), (\d+), (\d+),", tail)
+            if not nums:
+                raise Inconclusive("cannot read the PREDICTASYNC output: " + tail[:400])
+            as_code, as_other, as_all = map(int, nums[0])
+            pairs = sorted(set(re.findall(r'<<\\?"([a-z]+)\\?", \\?"([a-z]+)\\?">>', tail)))
+            if as_code != 0:
+                raise Inconclusive("the step model of the async helpers (order of the code) breaks "
+                                   "AsyncLaw in %d scenarios" % as_code)
+            if as_other == 0:
+                raise Inconclusive("AsyncLaw cannot tell a helper that subscribes after its mutation "
+                                   "from the code")
+            rep.coverage["async_model"] = dict(
+                scenarios=as_all, law_broken_by_code_order=as_code,
+                law_broken_when_subscribing_after_the_mutation=as_other,
+                broken_via_mode=["%s/%s" % p for p in pairs])
         else:
             states += r["distinct"]
             trans += r["states"]
@@ -155,7 +183,10 @@ def drive(binary, tier, d, only=None, total_filter=""):
         stats["copy"] = go(["-mode", "copy", "-out", os.path.join(d, "copy"), "-shards", "1"])
     if only in (None, "helper"):
         stats["help"] = go(["-mode", "help", "-out", os.path.join(d, "help"), "-shards", "1",
-                            "-seed", str(seed())])
+                            "-seed", str(seed()), "-asyncreps", "1" if tier == "quick" else "6"])
+        stalls = {k: v for k, v in stats["help"]["stats"].items() if k.startswith("async-ret:stall")}
+        if stalls:
+            raise Inconclusive("the async helper driver stalled: %s" % stalls)
     small = os.path.join(d, "small.0.ndjson")
     with open(small, "w") as out:
         for f in ("copy.0.ndjson", "help.0.ndjson"):
@@ -186,6 +217,10 @@ def sig_of(tag, line):
                     disposed=line["sc"]["disposed"])
     if line["ev"] == "wait":
         return dict(part="helper", root=line["fn"], disposed=False)
+    if line["ev"] == "async":
+        # the four entry points share one body; one group per wrong answer
+        return dict(part="async", root="EvAddAsync", ret=line["ret"].split(":")[0],
+                    disposed=line["sc"]["mode"] == "disposed")
     if line["ev"] == "call":
         # phase / argclass of the group are those of its first (sorted) cell;
         # all cells are listed in the replay object
@@ -222,6 +257,7 @@ def validate(files, rep, tier, want=None):
     agg = Counter()
     groups = {}
     notes = Counter()
+    adrift = {}
     for r in res:
         if r["result"] is None:
             raise Inconclusive("trace validation did not finish for %s (rc=%s):\n%s" % (
@@ -234,6 +270,8 @@ def validate(files, rep, tier, want=None):
             agg[k] += x[k]
         agg["cells"] = max(agg["cells"], x["cells"])
         agg["allcells"] = x["allcells"]
+        agg["asyncsc"] = max(agg["asyncsc"], x["asyncsc"])
+        agg["asyncall"] = x["asyncall"]
         need = sorted(set(l for l, _ in x["viol"]) | set(l for l, _ in x["drift"]))
         lines = {}
         if need:
@@ -249,6 +287,10 @@ def validate(files, rep, tier, want=None):
             g = groups.setdefault(key, dict(sig=sig, n=0, example=line, tag=tag, fns=set(), cells=set()))
             g["n"] += 1
             g["fns"].add(line.get("fn", line.get("getter")))
+            if line["ev"] == "async":
+                g.setdefault("scs", set()).add("%s/%s%s%s" % (
+                    line["sc"]["via"], line["sc"]["mode"], "/pre" if line["sc"]["pre"] else "",
+                    "/multi" if line["sc"]["multi"] else ""))
             if line["ev"] == "call":
                 g["cells"].add((line["phase"], line["cls"]))
                 if (line["phase"], line["cls"]) < (g["example"]["phase"], g["example"]["cls"]):
@@ -261,8 +303,17 @@ def validate(files, rep, tier, want=None):
                 notes["getter %s, %s: the machine changed (not demanded by the property)" % (
                     line["getter"], line["how"])] += 1
                 continue
+            if line["ev"] == "async":
+                # one line per entry point and answer, not one per case
+                k = (line["fn"], line["ret"].split(":")[0])
+                adrift.setdefault(k, [0, "%s line %d" % (os.path.basename(r["file"]), l), line])[0] += 1
+                continue
             rep.drift.append("%s line %d: %s %s" % (os.path.basename(r["file"]), l, tag,
                                                     json.dumps(line)[:200]))
+    for (fn, ret), (n, where, line) in sorted(adrift.items()):
+        rep.drift.append("%s answered '%s' / left the wait state at tick %d where the step model of the "
+                         "code cannot (%d cases), e.g. %s: %s" % (fn, ret, line["t1"], n, where,
+                                                                 json.dumps(line)[:400]))
     nviol = 0
     for key, g in sorted(groups.items()):
         sig = g["sig"]
@@ -277,6 +328,12 @@ def validate(files, rep, tier, want=None):
                 g["tag"], g["n"])
         elif ex["ev"] == "mutret":
             text = "mutating the value returned by %s (%s) changed the machine" % (ex["getter"], ex["how"])
+        elif ex["ev"] == "async":
+            text = ("%s(wait W, add %s) in scenario %s returned %s -- not what happened to the machine: "
+                    "W ticked %d -> %d during the call (%d when the ctx ended), the helper's mutation was %s, "
+                    "ctx expired by the driver: %s (%d cases; activation via/mode: %s)" % (
+                        ex["fn"], json.dumps(ex["add"]), json.dumps(ex["sc"]), ex["ret"], ex["t0"], ex["t1"],
+                        ex["te"], ex["mut"], ex["expired"], g["n"], ", ".join(sorted(g.get("scs", [])))))
         elif ex["ev"] in ("help", "wait"):
             text = "%s in scenario %s returned %s -- not what happened to the machine (%d cases)" % (
                 ex["fn"], json.dumps(ex.get("sc", dict(chans=ex.get("chans"), ctx=ex.get("ctx")))),
@@ -287,7 +344,7 @@ def validate(files, rep, tier, want=None):
                 ex.get("detail", "")[:300].replace("\n", " | "))
         if ex["ev"] == "call":
             sig = dict(sig, phase=ex["phase"], argclass=ex["cls"])
-        if ex["ev"] in ("help", "wait"):
+        if ex["ev"] in ("help", "wait", "async"):
             text = "[%s] " % ",".join(sorted(g["fns"])) + text
         rep.violation(sig, dict(kind="api", property=PROP, part=sig["part"], signature=sig,
                                 tier=tier, example=ex, functions=sorted(g["fns"]),
@@ -339,6 +396,8 @@ def distinct_nontrivial(files):
                 keys.add((x["fn"], x["phase"], x["cls"]))
             elif x["ev"] in ("help", "wait", "mutret"):
                 keys.add(l)
+            elif x["ev"] == "async":
+                keys.add((x["fn"], json.dumps(x["sc"], sort_keys=True), json.dumps(x["shape"], sort_keys=True)))
     return total, len(keys)
 
 
@@ -359,6 +418,9 @@ def check(tier):
         if agg["cells"] != agg["allcells"]:
             rep.drift.append("sweep covered %d of the %d (phase, class) cells of the specification" % (
                 agg["cells"], agg["allcells"]))
+        if agg["asyncsc"] != agg["asyncall"]:
+            rep.drift.append("the async helper driver covered %d of the %d scenarios of the specification" % (
+                agg["asyncsc"], agg["asyncall"]))
         for k, why in sorted(tot.get("unbuildable", {}).items()):
             rep.drift.append("the sweep has no argument rule for %s (%s): not covered" % (k, why))
         # which functions break on the real code vs what the as-found model predicts
@@ -368,6 +430,10 @@ def check(tier):
             traces_validated_against_impl=len(files), evaluations=total, distinct_nontrivial=distinct,
             trace_lines=agg["lines"], algebra_calls=agg["alg"], getter_mutations=agg["copy"],
             helper_scenarios=agg["help"], sweep_calls=agg["calls"],
+            async_helpers=dict(cases=sum(v for k, v in stats["help"]["stats"].items() if k.startswith("async:")),
+                               answers={k.split(":", 1)[1]: v for k, v in stats["help"]["stats"].items()
+                                        if k.startswith("async-ret:")},
+                               scenarios=agg["asyncsc"], scenarios_spec=agg["asyncall"]),
             sweep=dict(targets=tot["targets"], calls=tot["calls"], outcomes=tot["outcomes"],
                        worker_restarts=tot["restarts"], rechecked=tot.get("blocked_rechecked"),
                        recheck_changed=tot.get("blocked_unconfirmed"),
@@ -382,7 +448,12 @@ def check(tier):
                  "vectors over ticks 0..2, queues <= MaxQueue x every Position) on the real "
                  "functions; copy: every listed getter x mutation x {idle, inside a handler with a "
                  "non-empty queue}; helpers: every Sync/Cant/Ask helper x {direct, queued, disposed} "
-                 "x {possible, vetoed}, WaitForAll/Any x channel patterns x ctx; sweep: every "
+                 "x {possible, vetoed}, WaitForAll/Any x channel patterns x ctx; async helpers: the 4 "
+                 "entry points x {W activated by the helper's own transition (added itself / Add "
+                 "relation, chain 1..2), by a final handler in the same queue drain (chain 1..2), "
+                 "later by another goroutine, by a mutation already queued, never} x W active "
+                 "before x W Multi x {direct, queued, disposed} x vetoed x ctx {live, never ending, "
+                 "cancelled} x 1..2 added states in both orders; sweep: every "
                  "exported function/method (generated table + reflection) x 6 lifecycle phases x 4 "
                  "argument classes (classes building identical arguments are dropped). Each logged "
                  "call is one evaluation; non-trivial = the result differs from the first operand "
@@ -402,6 +473,13 @@ def check(tier):
             "counts, pointers to structs are never nil; blocking helpers are not called from a "
             "handler of the same machine; a call that does not return while it is made BY a "
             "handler is 'deferred' (HandlerTimeout governs), not a violation",
+            "async helpers: reading the tick and subscribing are one step of the model (the race "
+            "between Tick and WhenTicks inside the helper cannot be forced without a hook); the live "
+            "ctx is ended by the driver, 2.5 s after the last thing the environment did when the "
+            "awaited state got a new activation, so 'false' cannot be a slow scheduler; a ctx that "
+            "is already cancelled is outside 'nil or live context' (either answer, but it must "
+            "return); not returning on a never-ending ctx while nothing was activated is the "
+            "documented waiting, not 'blocks forever'",
             "'blocked' = the goroutine is parked in a blocking operation after the deadline AND "
             "blocks again when re-run alone in a fresh process with a doubled deadline",
             "totality half is exploration level: one representative value per argument class",
@@ -422,7 +500,8 @@ def replay(path):
     d = scratch(PROP + "-replay")
     try:
         part = sig["part"]
-        only = {"algebra": "alg", "copy": "copy", "helper": "helper", "total": "total"}[part]
+        only = {"algebra": "alg", "copy": "copy", "helper": "helper", "async": "helper",
+                "total": "total"}[part]
         flt = ""
         if part == "total":
             import re
